@@ -85,7 +85,23 @@ func (self *ObjectCursor[T]) EvalDatetime(name string) *time.Time {
 }
 
 func (self *ObjectCursor[T]) IsNil(name string) bool {
-	return nil == self.eval(name)
+	// the symbols return typed pointers wrapped in an interface value, which is never equal to the
+	// untyped nil; test the pointer itself
+	switch val := self.eval(name).(type) {
+	case nil:
+		return true
+	case *bool:
+		return val == nil
+	case *string:
+		return val == nil
+	case *int64:
+		return val == nil
+	case *float64:
+		return val == nil
+	case *time.Time:
+		return val == nil
+	}
+	return false
 }
 
 func (self *ObjectCursor[T]) OpenSetCursor(name string) ast.SetCursor {
